@@ -24,7 +24,7 @@ static int pick_param(Rng& rng, int method, bool explicit_param)
 	switch(method)
 	{
 		case 1: return rng.irange(5, 15);	   // Gauss-Kronrod max depth (default 5)
-		case 3: return rng.irange(30, 100);	   // number of Gauss-Legendre points (default 30)
+		case 3: return rng.coin(0.1) ? rng.irange(500, 700) : rng.irange(30, 100);	   // number of Gauss-Legendre points (default 30); now and then a large order (seeded change C13-r7m3: factors that underflow from n ~ 520)
 		default: return rng.irange(1, 50);	   // ignored by the other methods
 	}
 }
@@ -369,6 +369,10 @@ static void case_spherical(Rng& rng, uint64_t index)
 	{
 		c1 = rng.uni(-1, 0.8), c2 = rng.uni(c1 + 0.1, 1.0);
 		p1 = rng.uni(0, 5), p2 = rng.uni(p1 + 0.2, std::min(p1 + 6.0, 2 * M_PI));
+		// "all angular sub-ranges": also ranges that start below 0 or end above 2 pi (seeded change C13-r7m2 took sin(phi) from cos(phi) with the sign of
+		// phi > pi)
+		if(rng.coin(0.4))
+			p1 = rng.uni(-6.0, 8.0), p2 = p1 + rng.uni(0.2, 6.0);
 		if(rng.coin(0.3))
 			std::swap(c1, c2);
 		if(rng.coin(0.3))
@@ -376,9 +380,10 @@ static void case_spherical(Rng& rng, uint64_t index)
 	}
 	if(rng.coin(0.2))
 		std::swap(r1, r2);
-	double s = rng.uni(0.5, 2), al = full && rng.coin() ? 0.0 : rng.uni(-0.9, 0.9), be = full && al == 0 ? 0.0 : rng.uni(-0.9, 0.9);
-	bool radial_only = (al == 0 && be == 0);
-	set_params(J().str("method", METHODS[method]).i("method_parameter", param).d("r1", r1).d("r2", r2).d("cos1", c1).d("cos2", c2).d("phi1", p1).d("phi2", p2).d("s", s).d("alpha", al).d("beta", be));
+	double s = rng.uni(0.5, 2), al = full && rng.coin() ? 0.0 : rng.uni(-0.9, 0.9), be = full && al == 0 ? 0.0 : rng.uni(-0.45, 0.45);
+	double ga = full && al == 0 ? 0.0 : rng.uni(-0.45, 0.45);	 // the integrand sees the sign of y as well: 1 + be cos(phi) + ga sin(phi)
+	bool radial_only = (al == 0 && be == 0 && ga == 0);
+	set_params(J().str("method", METHODS[method]).i("method_parameter", param).d("r1", r1).d("r2", r2).d("cos1", c1).d("cos2", c2).d("phi1", p1).d("phi2", p2).d("s", s).d("alpha", al).d("beta", be).d("gamma", ga));
 	hash_param(r1), hash_param(r2), hash_param(c1), hash_param(c2), hash_param(p1), hash_param(p2), hash_param(s), hash_param(al), hash_param(be), hash_param_u(method * 100 + param);
 	mark_nontrivial();
 	// f(v) = g(|v|) (1 + al cos(theta)) (1 + be cos(phi)),  g(r) = exp(-r/s)(1 + r^2)
@@ -400,8 +405,12 @@ static void case_spherical(Rng& rng, uint64_t index)
 		if(r > 0)
 			cz.see(c);
 		if(r > 0 && std::fabs(c) < 1 - 1e-9)
-			az.see(ph);
-		return std::exp(-r / s) * (1 + r * r) * (1 + al * c) * (1 + be * std::cos(ph));
+		{
+			// the representative of the azimuth in [lower limit, lower limit + 2 pi)
+			double shifted = ph + 2 * M_PI * std::ceil((plo - 1e-9 - ph) / (2 * M_PI));
+			az.see(shifted);
+		}
+		return std::exp(-r / s) * (1 + r * r) * (1 + al * c) * (1 + be * std::cos(ph) + ga * std::sin(ph));
 	};
 	StreamCapture cap;
 	double got = Integrate_3D(f, r1, r2, c1, c2, p1, p2, std::string(METHODS[method]), param);
@@ -410,9 +419,9 @@ static void case_spherical(Rng& rng, uint64_t index)
 	if(r1 > r2)
 		R = -R;
 	ld Cc = ((ld) c2 - c1) + (ld) al * ((ld) c2 * c2 - (ld) c1 * c1) / 2;
-	ld Pp = ((ld) p2 - p1) + (ld) be * (sinl((ld) p2) - sinl((ld) p1));
+	ld Pp = ((ld) p2 - p1) + (ld) be * (sinl((ld) p2) - sinl((ld) p1)) - (ld) ga * (cosl((ld) p2) - cosl((ld) p1));
 	ld exact = R * Cc * Pp;
-	ld L1	 = fabsl(R) * fabsl((ld) c2 - c1) * fabsl((ld) p2 - p1) * (1 + fabsl((ld) al)) * (1 + fabsl((ld) be));
+	ld L1	 = fabsl(R) * fabsl((ld) c2 - c1) * fabsl((ld) p2 - p1) * (1 + fabsl((ld) al)) * (1 + fabsl((ld) be) + fabsl((ld) ga));
 	double err = (double) (fabsl((ld) got - exact) / L1);
 	auto det   = [&] { return J().d("got", got).d("exact", (double) exact).i("evaluations", (long long) nr.n); };
 	judge("spherical-overload-value", err, 3e-9, det);
@@ -429,7 +438,7 @@ static void case_spherical(Rng& rng, uint64_t index)
 	require("spherical-vector-norm-within-radial-limits", okr, [&] { return det().d("norm_min", nr.lo).d("norm_max", nr.hi); });
 	bool okc = cz.n == 0 || (cz.lo >= clo - 1e-14 && cz.hi <= chi + 1e-14);
 	require("spherical-polar-cosine-within-limits", okc, [&] { return det().d("cos_min", cz.lo).d("cos_max", cz.hi); });
-	bool okp = az.n == 0 || (az.lo >= plo - 1e-9 && az.hi <= phi_hi + 1e-9) || (phi_hi >= 2 * M_PI - 1e-9 && plo <= 1e-9);
+	bool okp = az.n == 0 || (az.lo >= plo - 1e-9 && az.hi <= phi_hi + 1e-9) || (phi_hi - plo >= 2 * M_PI - 1e-9);
 	require("spherical-azimuth-within-limits", okp, [&] { return det().d("phi_min", az.lo).d("phi_max", az.hi); });
 	if(index % 499 == 0)
 		sample(J().d("relative_error", err));
